@@ -351,10 +351,21 @@ pub fn run_c20(opts: &Opts, out: &mut Emitter) {
             .iter()
             .filter_map(|(t, q, a)| lower(t).map(|tx| (tx, *q, a.clone())))
             .collect();
-        out.case(if k == 0 { "corpus" } else { "random" }, || {
+        // a third of the targets arrive with their arguments already applied (a host may store such a template and
+        // resolve it with no arguments at all)
+        let preapplied = k % 3 == 2;
+        let (target_tx, target_args) = if preapplied {
+            match guarded(|| tx3_tir::reduce::apply_args(target_tx.clone(), &args_for(target.1))) {
+                Ok(Ok(t)) => (t, BTreeMap::new()),
+                _ => (target_tx, args_for(target.1)),
+            }
+        } else {
+            (target_tx, args_for(target.1))
+        };
+        out.case(if k == 0 { "corpus" } else if preapplied { "random-preapplied" } else { "random" }, || {
             // fresh instance
             let mut fresh = Tracing::new(store::compiler(pp(), Some(0)));
-            let fresh_res = resolve_outcome(&mut fresh, &target_tx, &args_for(target.1), &store_with(&target.2), 3);
+            let fresh_res = resolve_outcome(&mut fresh, &target_tx, &target_args, &store_with(&target.2), 3);
             // used instance
             let mut used = Tracing::new(store::compiler(pp(), Some(0)));
             let mut hist_res = vec![];
@@ -362,7 +373,7 @@ pub fn run_c20(opts: &Opts, out: &mut Emitter) {
                 hist_res.push(resolve_outcome(&mut used, tx, &args_for(*q), &store_with(a), 3));
             }
             used.take();
-            let used_res = resolve_outcome(&mut used, &target_tx, &args_for(target.1), &store_with(&target.2), 3);
+            let used_res = resolve_outcome(&mut used, &target_tx, &target_args, &store_with(&target.2), 3);
             // also straight compile() calls in the history (the state is set by compile, not only by resolve_tx)
             json!({"history": history.iter().map(|(t, q, a)| json!({"src": t.src, "q": int(*q), "store": a.iter().map(|x| int(*x)).collect::<Vec<_>>()})).collect::<Vec<_>>(),
                    "history_results": hist_res,
